@@ -11,16 +11,18 @@ CONSTANTS MaxLen, ExportLen,
           Editing,    \* BOOLEAN: add / modify / remove / define / in / Unit(str) enabled
           WarmSet,    \* subset of BOOLEAN: lru state of binary operations
           DScales,    \* scales used by add/define on the default registry (subset of Scales)
+          DPfx,       \* prefixable flags used by add/define on the default registry (subset of BOOLEAN)
           AddScales, ModScales,   \* scales used by add / modify on custom registries (subsets of Scales)
           ReadKeys, ReadProbes,   \* arguments of `in` / Unit(str)
           BinP, BinF,             \* unit strings / operators of binary operations (subsets of BinProbes / BinOps)
-          CopyP                   \* unit strings of pickled quantities / copied units
+          CopyP,                  \* unit strings of pickled quantities / copied units
+          ConvHows                \* conversion methods (subset of Hows)
 
 \* a re-binding with bypass_validation=True is only generated as the LAST call of a history: on today's code it
 \* re-binds the caller's Unit object (known finding), after which every later call is a consequence of that
 NoBypassYet == \A i \in DOMAIN hist : ~(hist[i].op = "rebind" /\ hist[i].bypass)
 Edits(r) ==
-  \/ \E s \in Syms, sc \in (IF r = 0 THEN DScales ELSE AddScales), px \in BOOLEAN : Add(r, s, sc, px)
+  \/ \E s \in Syms, sc \in (IF r = 0 THEN DScales ELSE AddScales), px \in (IF r = 0 THEN DPfx ELSE BOOLEAN) : Add(r, s, sc, px)
   \/ \E k \in Keys, sc \in ModScales : Modify(r, k, sc)
   \/ \E k \in Keys : Remove(r, k)
 Reads(r) ==
@@ -37,10 +39,11 @@ NsOps(r) == MkUnitSystem(r, "kfoo") \/ MkUnitSystem(r, "km") \/ MkUnitSystem(r, 
 MixedOps ==
   \/ \E op \in BinF, r1, r2 \in RegIds, p1, p2 \in BinP, w \in WarmSet : BinOp(op, r1, p1, r2, p2, w)
   \/ \E r, src \in RegIds, p \in BinP \cup {"km"}, bv \in BOOLEAN : Rebind(r, src, p, bv)
+  \/ \E r, src \in RegIds, q \in BinP, p \in BinP \cup {"km"}, how \in ConvHows : Convert(r, q, src, p, how)
 
 Next == /\ Len(hist) < MaxLen /\ NoBypassYet
         /\ \/ (Editing /\ \E r \in RegIds : Edits(r) \/ Reads(r))
-           \/ (Editing /\ \E sc \in DScales, px \in BOOLEAN : DefineDefault(sc, px))
+           \/ (Editing /\ \E sc \in DScales, px \in DPfx : DefineDefault(sc, px))
            \/ Creations
            \/ (Namespaces /\ \E r \in RegIds : NsOps(r))
            \/ (Mixed /\ MixedOps)
@@ -49,8 +52,9 @@ Spec == Init /\ [][Next]_vars
 \* the kind of the last call stays visible (which call, through which registries): two calls that end in the same
 \* dictionaries are still two different things for C13 (e.g. a product whose result carries the right registry)
 LastKind == IF hist = <<>> THEN <<>> ELSE LET e == hist[Len(hist)] IN
-            IF e.op \in {"binop", "rebind"}
-            THEN <<e.op, e.r = 0, e.r2 = 0, e.r = e.r2, IF e.op = "binop" THEN e.fn ELSE "", IF e.op = "binop" THEN e.warm ELSE FALSE>>
+            IF e.op \in {"binop", "rebind", "convert"}
+            THEN <<e.op, e.r = 0, e.r2 = 0, e.r = e.r2, IF e.op = "binop" THEN e.fn ELSE IF e.op = "convert" THEN e.how ELSE "",
+                   IF e.op = "binop" THEN e.warm ELSE FALSE>>
             ELSE IF e.r = 0 /\ e.op \in {"modify", "remove"} THEN <<e.op, e.r, e.sym>>   \* every refusal of the default registry
             ELSE <<e.op, e.r>>
 \* NoBypassYet is a guard on the hidden history, so it must be visible too (otherwise a dead-end representative
@@ -61,7 +65,7 @@ View == <<regs, tabs, tflag, memo, last, LastKind, NoBypassYet>>
 \* registry does not matter; the route-visible instance covers routes x edits)
 View2 == <<[r \in RegIds |-> [live |-> regs[r].live, d |-> regs[r].d, c |-> regs[r].c, kind |-> regs[r].kind, grp |-> regs[r].grp]],
            tabs, tflag, memo, last, LastKind, NoBypassYet>>
-LastIsMixed == hist # <<>> /\ hist[Len(hist)].op \in {"binop", "rebind"}
+LastIsMixed == hist # <<>> /\ hist[Len(hist)].op \in {"binop", "rebind", "convert"}
 
 \* model-level verdicts
 ModelSharing == C13_NoSharing \/ PrintT(ToJson([tag |-> "MODEL-SHARING", h |-> hist]))
